@@ -1387,7 +1387,8 @@ Hypothesis HT : third_party W dst src (cn st).
 Lemma copy_io_transfers vfh st' :
   copy_io W st dst src true vfh = (st', COk) ->
   linked (cn st) (plan W dst src (cn st)) (cn st') /\
-  (forall ch, In ch (all_chans W src) -> cn st ch <> [] -> my_chan W dst ch <> None).
+  (forall ch, In ch (all_chans W src) -> cn st ch <> [] -> my_chan W dst ch <> None) /\
+  Good (cn st) (plan W dst src (cn st)) /\ Own W dst src (plan W dst src (cn st)).
 Proof.
   unfold copy_io. destruct (copy_connections_io W true dst src (cn st) (fc st)) as [[[s1 k1] new] raised] eqn:C.
   pose proof (copy_connections_io_spec W dst src (cn st) Hne HS HN HU HT (fc st) s1 k1 new raised C) as R.
@@ -1448,6 +1449,252 @@ Qed.
 
 End Transfers.
 
+(* ---- disconnecting a node ------------------------------------------------------------------------ *)
+Definition WF (u : cstore) : Prop := Sym u /\ NoDupS u /\ Irrefl u.
+
+Lemma in_split_nodup (b : nat) l : In b l -> NoDup l -> exists X Y, l = X ++ b :: Y /\ ~ In b X /\ ~ In b Y.
+Proof.
+  intros Hin ND. destruct (in_split _ _ Hin) as (X & Y & ->). exists X, Y. split; auto.
+  apply NoDup_remove_2 in ND. split; intros H; apply ND; apply in_or_app; auto.
+Qed.
+
+Lemma filter_all_true {A} (f : A -> bool) l : (forall x, In x l -> f x = true) -> filter f l = l.
+Proof.
+  induction l as [|a r IH]; simpl; intros H; auto.
+  rewrite (H a (or_introl eq_refl)). f_equal. apply IH. intros x Hx. apply H. now right.
+Qed.
+
+Lemma remove1_filter b l : NoDup l -> remove1 Nat.eqb b l = filter (fun p => negb (Nat.eqb p b)) l.
+Proof.
+  induction l as [|y r IH]; simpl; intros ND; auto. inversion ND as [|? ? Hnin ND']; subst.
+  rewrite (Nat.eqb_sym y b). destruct (Nat.eqb b y) eqn:E; simpl.
+  - apply Nat.eqb_eq in E. subst y. symmetry. apply filter_all_true.
+    intros x Hx. apply negb_true_iff. apply Nat.eqb_neq. intros ->. contradiction.
+  - f_equal. now apply IH.
+Qed.
+
+Lemma filter_In_neq b l x : In x (filter (fun p => negb (Nat.eqb p b)) l) <-> In x l /\ x <> b.
+Proof.
+  rewrite filter_In. split; intros [H1 H2]; split; auto.
+  - apply negb_true_iff in H2. now apply Nat.eqb_neq in H2.
+  - apply negb_true_iff. now apply Nat.eqb_neq.
+Qed.
+
+Definition minus (b : nat) (l : list nat) : list nat := filter (fun p => negb (Nat.eqb p b)) l.
+
+Lemma filter_true {A} (f : A -> bool) l : (forall x, In x l -> f x = true) -> filter f l = l.
+Proof.
+  induction l as [|a r IH]; simpl; intros H; auto.
+  rewrite (H a (or_introl eq_refl)). f_equal. apply IH. intros x Hx. apply H. now right.
+Qed.
+
+Lemma filter_minus_mem b r l :
+  filter (fun p => negb (memn p r)) (minus b l) = filter (fun p => negb (memn p (b :: r))) l.
+Proof.
+  unfold minus. induction l as [|y l' IH]; simpl; auto.
+  unfold memn at 2. cbn [memb]. destruct (Nat.eqb y b) eqn:E; simpl.
+  - exact IH.
+  - fold (memn y r). destruct (memn y r); simpl; [exact IH|]. f_equal. exact IH.
+Qed.
+
+Lemma disc1_wf u a b : WF u -> In b (u a) ->
+  (forall x, disc1 u a b x = if Nat.eqb x a then minus b (u a) else if Nat.eqb x b then minus a (u b) else u x) /\
+  WF (disc1 u a b).
+Proof.
+  intros (HS & HN & HI) Hb.
+  assert (Ha : In a (u b)) by now apply HS.
+  assert (Hab : a <> b) by (intros ->; now apply (HI b)).
+  destruct (in_split_nodup b (u a) Hb (HN a)) as (Xa & Ya & Ea & Xa1 & Ya1).
+  destruct (in_split_nodup a (u b) Ha (HN b)) as (Xb & Yb & Eb & Xb1 & Yb1).
+  assert (F : forall x, disc1 u a b x = if Nat.eqb x a then minus b (u a) else if Nat.eqb x b then minus a (u b) else u x).
+  { intros x. rewrite (disc1_mid u a b Xa Ya Xb Yb Hab Ea Xa1 Ya1 Eb Xb1).
+    unfold minus. rewrite <- !remove1_filter by auto. rewrite Ea, Eb, !remove1_mid by auto. reflexivity. }
+  split; [exact F|].
+  assert (Fin : forall x y, In y (disc1 u a b x) <-> In y (u x) /\ ~ (x = a /\ y = b) /\ ~ (x = b /\ y = a)).
+  { intros x y. rewrite F. destruct (Nat.eqb x a) eqn:E1.
+    - apply Nat.eqb_eq in E1. subst x. unfold minus. rewrite filter_In_neq. split.
+      + intros [H1 H2]. repeat split; auto; intros [H3 H4]; congruence.
+      + intros (H1 & H2 & H3). split; auto.
+    - apply Nat.eqb_neq in E1. destruct (Nat.eqb x b) eqn:E2.
+      + apply Nat.eqb_eq in E2. subst x. unfold minus. rewrite filter_In_neq. split.
+        * intros [H1 H2]. repeat split; auto; intros [H3 H4]; congruence.
+        * intros (H1 & H2 & H3). split; auto.
+      + apply Nat.eqb_neq in E2. split; [intros H; repeat split; auto; intros [H3 H4]; congruence|tauto]. }
+  split; [|split].
+  - intros x y Hy. apply Fin in Hy. destruct Hy as (H1 & H2 & H3). apply Fin. repeat split; auto; tauto.
+  - intros x. rewrite F. destruct (Nat.eqb x a); [apply NoDup_filter, HN|].
+    destruct (Nat.eqb x b); [apply NoDup_filter, HN|apply HN].
+  - intros x Hx. apply Fin in Hx. destruct Hx as [Hx _]. now apply (HI x).
+Qed.
+
+Lemma disconnect_wf a : forall bs u, WF u -> NoDup bs -> (forall b, In b bs -> In b (u a)) ->
+  (forall x, fst (disconnect u a bs) x =
+             if Nat.eqb x a then filter (fun p => negb (memn p bs)) (u a)
+             else if memn x bs then minus a (u x) else u x) /\
+  WF (fst (disconnect u a bs)).
+Proof.
+  induction bs as [|b r IH]; intros u HW ND Hbs.
+  - simpl. split; auto. intros x. destruct (Nat.eqb x a) eqn:E; auto. apply Nat.eqb_eq in E. subst.
+    symmetry. apply filter_true. auto.
+  - inversion ND as [|? ? Hnin ND']; subst.
+    assert (Hb : In b (u a)) by (apply Hbs; now left).
+    destruct (disc1_wf u a b HW Hb) as [F1 W1].
+    assert (Hab : a <> b) by (intros ->; destruct HW as (_ & _ & HI); now apply (HI b)).
+    simpl. rewrite (memn_true_of b (u a) Hb).
+    destruct (disconnect (disc1 u a b) a r) as [s' ps] eqn:D. simpl.
+    assert (Hr : forall b', In b' r -> In b' (disc1 u a b a)).
+    { intros b' Hb'. rewrite F1, Nat.eqb_refl. apply filter_In_neq. split.
+      - apply Hbs. now right.
+      - intros ->. contradiction. }
+    destruct (IH (disc1 u a b) W1 ND' Hr) as [F2 W2]. rewrite D in F2, W2. simpl in F2, W2.
+    split; auto. intros x. rewrite F2, !F1, Nat.eqb_refl.
+    destruct (Nat.eqb x a) eqn:E1.
+    + apply filter_minus_mem.
+    + destruct (Nat.eqb x b) eqn:E2.
+      * apply Nat.eqb_eq in E2. subst x. rewrite (memn_false_of b r Hnin).
+        unfold memn at 1. cbn [memb]. rewrite Nat.eqb_refl. reflexivity.
+      * unfold memn at 2. cbn [memb]. rewrite E2. reflexivity.
+Qed.
+
+Lemma disconnect_all_wf u a : WF u ->
+  (forall x, fst (disconnect_all u a) x = if Nat.eqb x a then [] else minus a (u x)) /\
+  WF (fst (disconnect_all u a)).
+Proof.
+  intros HW. destruct HW as (HS & HN & HI).
+  destruct (disconnect_wf a (u a) u (conj HS (conj HN HI)) (HN a) (fun b H => H)) as [F W1].
+  split; auto. intros x. unfold disconnect_all. rewrite F.
+  destruct (Nat.eqb x a) eqn:E1.
+  - apply Nat.eqb_eq in E1. subst x.
+    destruct (filter (fun p => negb (memn p (u a))) (u a)) as [|y r] eqn:Fl; auto.
+    assert (Hy : In y (filter (fun p => negb (memn p (u a))) (u a))) by (rewrite Fl; now left).
+    apply filter_In in Hy. destruct Hy as [H1 H2]. apply memn_true_of in H1. rewrite H1 in H2. discriminate.
+  - destruct (memn x (u a)) eqn:M; auto.
+    symmetry. unfold minus. apply filter_all_true. intros y Hy. apply negb_true_iff. apply Nat.eqb_neq.
+    intros ->. apply HS in Hy. apply memn_true_of in Hy. congruence.
+Qed.
+
+Lemma dal_wf : forall L u, WF u ->
+  (forall x, fst (disconnect_all_list u L) x =
+             if memn x L then [] else filter (fun p => negb (memn p L)) (u x)) /\
+  WF (fst (disconnect_all_list u L)).
+Proof.
+  induction L as [|c r IH]; intros u HW.
+  - simpl. split; auto. intros x. symmetry. apply filter_all_true. auto.
+  - simpl. destruct (disconnect_all u c) as [u1 p1] eqn:D1.
+    destruct (disconnect_all_wf u c HW) as [F1 W1]. rewrite D1 in F1, W1. simpl in F1, W1.
+    destruct (disconnect_all_list u1 r) as [u2 p2] eqn:D2.
+    destruct (IH u1 W1) as [F2 W2]. rewrite D2 in F2, W2. simpl in F2, W2. simpl.
+    split; auto. intros x. rewrite F2, F1.
+    unfold memn at 3. cbn [memb]. fold (memn x r).
+    destruct (Nat.eqb x c) eqn:E1; simpl.
+    + destruct (memn x r); reflexivity.
+    + destruct (memn x r); [reflexivity|]. apply filter_minus_mem.
+Qed.
+
+(* a store in which a Good log was linked on top of a well-formed store is well-formed *)
+Lemma Good_partners_nodup s0 ps c : Good s0 ps -> NoDup (partners ps c).
+Proof.
+  induction ps as [|[a b] r IH]; intros G; [constructor|].
+  pose proof (Good_tail _ _ _ G) as G'. destruct G as [ND H].
+  inversion ND as [|? ? Hnin ND']; subst.
+  destruct (H a b (or_introl eq_refl)) as (Hab & Hba & _).
+  rewrite partners_cons.
+  destruct (Nat.eqb c a) eqn:E1.
+  - apply Nat.eqb_eq in E1. subst c. simpl. constructor; auto.
+    intros Hx. apply partners_In in Hx. destruct Hx as [Hx|Hx]; auto. apply Hba. now right.
+  - destruct (Nat.eqb c b) eqn:E2; simpl; auto.
+    apply Nat.eqb_eq in E2. subst c. constructor; auto.
+    intros Hx. apply partners_In in Hx. destruct Hx as [Hx|Hx]; auto. apply Hba. now right.
+Qed.
+
+Lemma linked_wf s0 ps u : WF s0 -> Good s0 ps -> linked s0 ps u -> WF u.
+Proof.
+  intros (HS & HN & HI) G L. pose proof G as [_ GH]. split; [|split].
+  - intros a b Hb. rewrite L in Hb. rewrite L. apply in_app_or in Hb. apply in_or_app.
+    destruct Hb as [Hb|Hb]; [left|right; now apply HS].
+    rewrite <- in_rev in *. apply partners_In in Hb. apply partners_In. tauto.
+  - intros a. rewrite L. apply NoDup_app_intro; auto.
+    + apply NoDup_rev. eapply Good_partners_nodup; eauto.
+    + intros x Hx. rewrite <- in_rev in Hx. apply partners_In in Hx.
+      destruct Hx as [Hx|Hx]; destruct (GH _ _ Hx) as (_ & _ & G3 & G4); auto.
+  - intros a Ha. rewrite L in Ha. apply in_app_or in Ha. destruct Ha as [Ha|Ha]; [|now apply (HI a)].
+    rewrite <- in_rev in Ha. apply partners_In in Ha.
+    destruct Ha as [Ha|Ha]; destruct (GH _ _ Ha) as (G1 & _); congruence.
+Qed.
+
+(* ---- the connections of a successful replacement ------------------------------------------------------ *)
+Section InheritConns.
+Variable W : world.
+Variable st : state.
+Variables comp old new : nat.
+Hypothesis HW : WF (cn st).
+Hypothesis HR : InRange W (cn st).
+Hypothesis HU : uniq_labels W old.
+Hypothesis Hself : no_self W (cn st) old.
+
+Lemma replace_core_cn st' :
+  replace_core W st comp old new = (st', ROk) ->
+  exists st1, copy_io W st new old true false = (st1, COk) /\ new <> old /\ connected W (cn st) new = false /\
+              cn st' = fst (node_disconnect W (cn st1) old).
+Proof.
+  unfold replace_core.
+  destruct (optnat_eqb (par st old) (Some comp)) eqn:P1; simpl; [|discriminate].
+  destruct (optnat_eqb (par st new) None) eqn:P2; simpl; [|discriminate].
+  destruct (connected W (cn st) new) eqn:Cn; [discriminate|].
+  apply optnat_eqb_true in P1. apply optnat_eqb_true in P2.
+  assert (Hne : new <> old) by (intros ->; congruence).
+  destruct (copy_io W st new old true false) as [st1 [|e1 ph1]] eqn:C; [|discriminate].
+  destruct (inbound W st1 comp old new) as [inb|]; [|discriminate].
+  destruct (outbound W st1 comp old new) as [outb|]; [|discriminate].
+  match goal with |- context [reforge W ?s (inb ++ outb)] => set (st5 := s) end.
+  destruct (reforge W st5 (inb ++ outb)) as [st6 [|e6]] eqn:R; [|discriminate].
+  intros E. inversion E; subst st6. clear E.
+  destruct (reforge_frame W _ _ _ _ R) as (G1 & _).
+  exists st1. repeat split; auto. rewrite G1. unfold st5.
+  destruct (memn old (start st1)); reflexivity.
+Qed.
+
+(* B3: every connection the old node had.  After a successful replace_child
+   - the old node is connected to nothing;
+   - every other channel lists first the channels of the replacement that took over its connections to the
+     old node (newest first), then what it listed before without the old node's channels;
+   - hence each channel of the replacement lists exactly the partners of its namesake on the old node, in
+     REVERSED order. *)
+Lemma replace_core_connections st' :
+  replace_core W st comp old new = (st', ROk) ->
+  (forall c, In c (all_chans W old) -> cn st' c = []) /\
+  (forall t, ~ In t (all_chans W old) ->
+     cn st' t = rev (partners (plan W new old (cn st)) t) ++
+                filter (fun p => negb (memn p (all_chans W old))) (cn st t)) /\
+  (forall ch x, In ch (all_chans W old) -> my_chan W new ch = Some x -> cn st' x = rev (cn st ch)) /\
+  (forall ch, In ch (all_chans W old) -> cn st ch <> [] -> my_chan W new ch <> None).
+Proof.
+  intros E. destruct (replace_core_cn st' E) as (st1 & C & Hne & Cn & Ecn).
+  destruct HW as (HS & HN & HI).
+  pose proof (third_party_unconnected W (cn st) old new HS HR Hself Cn) as HT.
+  destruct (copy_io_transfers W st new old Hne HS HN HU HT false st1 C) as (L & Hmy & G & O).
+  pose proof (linked_wf _ _ _ (conj HS (conj HN HI)) G L) as W1.
+  destruct (dal_wf (all_chans W old) (cn st1) W1) as [F _].
+  assert (P2 : forall t, ~ In t (all_chans W old) ->
+     cn st' t = rev (partners (plan W new old (cn st)) t) ++
+                filter (fun p => negb (memn p (all_chans W old))) (cn st t)).
+  { intros t Ht. rewrite Ecn. unfold node_disconnect. rewrite F, (memn_false_of t _ Ht), L, filter_app.
+    f_equal. apply filter_all_true. intros p Hp. apply negb_true_iff. apply memn_false_of.
+    intros Hin. apply in_all_chans in Hin. rewrite <- in_rev in Hp. apply partners_In in Hp.
+    destruct Hp as [Hp|Hp]; destruct (O _ _ Hp) as (O1 & O2 & O3); congruence. }
+  split; [|split; [exact P2|split; [|exact Hmy]]].
+  - intros c Hc. rewrite Ecn. unfold node_disconnect. rewrite F. now rewrite (memn_true_of c _ Hc).
+  - intros ch x Hch M.
+    assert (Hx : In x (all_chans W new)).
+    { unfold my_chan in M. destruct (cget W ch) as [y|]; [|discriminate].
+      apply find_chan_spec in M. destruct M as [M _]. eapply panel_in_all; eauto. }
+    assert (Hxo : ~ In x (all_chans W old)).
+    { intros H. apply in_all_chans in H. apply in_all_chans in Hx. congruence. }
+    rewrite (P2 x Hxo), (partners_plan_dst W st new old HU HT ch x Hch M).
+    rewrite (connected_false W (cn st) new Cn x Hx). apply app_nil_r.
+Qed.
+
+End InheritConns.
 (* ==== witnesses: where the code as written breaks the property ==================================== *)
 (* the channels of a function node: inputs, outputs, run, accumulate_and_run, ran, failed *)
 Definition fnode (n : nat) (ins outs : list (nat * option htag)) : world :=
